@@ -28,10 +28,13 @@ VARIABLES cfg,          \* the scenario class (chosen in Init)
           nops, mon, obs
 vars == <<cfg, pc, ecOn, errs, watch, rd, cst, srv, conns, nreq, nops, mon, obs>>
 
-Op(o) == [k |-> "op", op |-> o, ok |-> TRUE]
+Op(o) == [k |-> "op", op |-> o, ok |-> TRUE, b |-> FALSE]
 \* Master.load_flow: with a single reverse mode the flows read from the file get the reverse target as host
-HostOf(s) == IF s = "" THEN "" ELSE IF s = "r" /\ cfg.mode = "reverse" THEN "v" ELSE "o"
-Hk(a, h, s, i) == [k |-> "hook", a |-> a, h |-> h, src |-> s, i |-> i, host |-> HostOf(s)]
+\* (HTTP flows only); TCP flows have no host
+Tcp(s, i) == s = "r" /\ IsTcp(cfg, i)
+HostOf(s, i) == IF s = "" \/ Tcp(s, i) THEN "" ELSE IF s = "r" /\ cfg.mode = "reverse" THEN "v" ELSE "o"
+Hk(a, h, s, i) == [k |-> "hook", a |-> a, h |-> h, src |-> s, i |-> i, host |-> HostOf(s, i),
+                   p |-> IF s = "" THEN "" ELSE IF Tcp(s, i) THEN "tcp" ELSE "http"]
 Both(h, s, i) == <<Hk(1, h, s, i), Hk(2, h, s, i)>>
 ErrEv == [k |-> "err", by |-> "code"]
 EnvErrEv == [k |-> "err", by |-> "env"]
@@ -43,23 +46,30 @@ ExitEv(how, code) == [k |-> "exit", how |-> how, code |-> code, said |-> how = "
 Handlers(ec, ms) == (IF ec THEN <<"ErrorCheckHandler">> ELSE <<>>) \o (IF ms THEN <<"LegacyLogEvents", "TermLogHandler">> ELSE <<>>)
 EndEv(x, hs) == [k |-> "end", exited |-> x, handlers |-> hs]
 CfgEv(c) == [k |-> "cfg", ks |-> c.ks, rk |-> c.rk, rn |-> c.rn, fh |-> c.fh, cn |-> c.cn, conc |-> c.conc,
-             sn |-> c.sn, setup |-> c.setup, err |-> c.err, rs |-> c.rs, rf |-> c.rf, mode |-> c.mode, rep |-> c.rep]
+             sn |-> c.sn, setup |-> c.setup, err |-> c.err, rs |-> c.rs, rf |-> c.rf, mode |-> c.mode, rep |-> c.rep,
+             rt |-> c.rt]
 \* ReadFile.load_flows: the flows of the file that pass readfile_filter, in file order
 ExpSeq == SelectSeq([i \in 1..cfg.rn |-> i], LAMBDA i : Match(cfg, i))
 
 RECURSIVE Cat(_)
 Cat(ss) == IF ss = <<>> THEN <<>> ELSE Head(ss) \o Cat(Tail(ss))
 
+\* ReadFile.load_flows from the k-th matching flow on, up to the point where the task suspends (the slow addon holds
+\* the request hook of an HTTP flow) or the file ends ("corrupted": warning + error, two errors if nothing was loaded)
+RECURSIVE ReadFrom(_)
+ReadFrom(k) ==
+  IF k > Len(ExpSeq)
+  THEN [evs |-> IF cfg.rk # "corrupt" THEN <<>> ELSE IF ExpSeq = <<>> THEN <<ErrEv, ErrEv>> ELSE <<ErrEv>>,
+        st |-> "fin", at |-> 0]
+  ELSE LET i == ExpSeq[k] IN
+       IF cfg.fh = "gate" /\ ~IsTcp(cfg, i) THEN [evs |-> Both("request", "r", i), st |-> "held", at |-> k]
+       ELSE LET r == ReadFrom(k + 1) IN [r EXCEPT !.evs = Both("request", "r", i) \o Both("response", "r", i) \o @]
 \* ReadFile.running -> doread (eager): what happens before the task first suspends
 ReadStart ==
   IF cfg.rk = "none" THEN [evs |-> <<>>, st |-> "off", at |-> 0, err |-> FALSE]
-  ELSE IF cfg.rk = "missing" \/ (cfg.rk = "corrupt" /\ ExpSeq = <<>>)
-       THEN [evs |-> <<ErrEv, ErrEv>>, st |-> "fin", at |-> 0, err |-> TRUE]   \* "Cannot load flows"/"corrupted" + "Failed to read"
-  ELSE IF ExpSeq = <<>> THEN [evs |-> <<>>, st |-> "fin", at |-> 0, err |-> FALSE]
-  ELSE IF cfg.fh = "gate" THEN [evs |-> Both("request", "r", ExpSeq[1]), st |-> "held", at |-> 1, err |-> FALSE]
-  ELSE [evs |-> Cat([k \in 1..Len(ExpSeq) |-> Both("request", "r", ExpSeq[k]) \o Both("response", "r", ExpSeq[k])])
-                \o (IF cfg.rk = "corrupt" THEN <<ErrEv>> ELSE <<>>),
-        st |-> "fin", at |-> 0, err |-> cfg.rk = "corrupt"]
+  ELSE IF cfg.rk = "missing"
+       THEN [evs |-> <<ErrEv, ErrEv>>, st |-> "fin", at |-> 0, err |-> TRUE]   \* "Cannot load flows" + "Failed to read"
+  ELSE LET r == ReadFrom(1) IN [evs |-> r.evs, st |-> r.st, at |-> r.at, err |-> r.st = "fin" /\ cfg.rk = "corrupt"]
 
 \* ClientPlayback.running -> playback task: first flow (concurrency 1) or all of them (-1) reach open_connection
 ClientStart == IF cfg.conc = 1 THEN [i \in 1..cfg.cn |-> IF i = 1 THEN "dial" ELSE "q"] ELSE [i \in 1..cfg.cn |-> "dial"]
@@ -155,6 +165,12 @@ Crash ==   \* an unhandled exception reaches Master._asyncio_exception_handler: 
   /\ UNCHANGED <<cfg, pc, srv, conns, nreq, ecOn, watch, rd, cst>>
   /\ Emit(<<Op("crash"), ErrEv>>)
 
+CrashMsg ==   \* ... the same for a context without an exception ("Unhandled asyncio error")
+  /\ Live /\ pc \in {"setup", "wait"} /\ Can("crash") /\ nops' = nops + 1
+  /\ errs' = (errs \/ ecOn)
+  /\ UNCHANGED <<cfg, pc, srv, conns, nreq, ecOn, watch, rd, cst>>
+  /\ Emit(<<Op("crash_msg"), ErrEv>>)
+
 Tick ==   \* 105 ms pass: KeepServing.watch wakes once; not keepgoing() -> shutdown()
   /\ Live /\ pc \in {"setup", "wait"} /\ Can("tick") /\ nops' = nops + 1
   /\ UNCHANGED <<cfg, srv, conns, nreq, ecOn, errs, watch, rd, cst>>
@@ -164,11 +180,9 @@ Tick ==   \* 105 ms pass: KeepServing.watch wakes once; not keepgoing() -> shutd
 Release ==   \* the slow addon lets the flow go on: rest of its hooks, then the next flow or the end of the file
   /\ Live /\ pc = "wait" /\ rd.st = "held" /\ Can("release") /\ nops' = nops + 1
   /\ UNCHANGED <<cfg, pc, srv, conns, nreq, ecOn, errs, watch, cst>>
-  /\ IF rd.at < Len(ExpSeq)
-     THEN /\ rd' = [rd EXCEPT !.at = @ + 1]
-          /\ Emit(<<Op("release")>> \o Both("response", "r", ExpSeq[rd.at]) \o Both("request", "r", ExpSeq[rd.at + 1]))
-     ELSE /\ rd' = [st |-> "fin", at |-> 0]
-          /\ Emit(<<Op("release")>> \o Both("response", "r", ExpSeq[rd.at]) \o (IF cfg.rk = "corrupt" THEN <<ErrEv>> ELSE <<>>))
+  /\ LET r == ReadFrom(rd.at + 1) IN
+     /\ rd' = [st |-> r.st, at |-> r.at]
+     /\ Emit(<<Op("release")>> \o Both("response", "r", ExpSeq[rd.at]) \o r.evs)
 
 DialOk ==   \* the oldest pending upstream connection attempt succeeds: the request is sent
   /\ Live /\ pc = "wait" /\ Can("dial") /\ nops' = nops + 1
@@ -219,7 +233,7 @@ End ==   \* the scenario stops observing while the master is still up
   /\ UNCHANGED <<cfg, srv, conns, nreq, ecOn, errs, watch, rd, cst>>
   /\ Emit(<<EndEv(FALSE, Handlers(ecOn, TRUE))>>)
 
-Next == \/ Start \/ SetupOk \/ SetupFail \/ Shutdown \/ Cancel \/ LogErr \/ Crash \/ Tick \/ Release
+Next == \/ Start \/ SetupOk \/ SetupFail \/ Shutdown \/ Cancel \/ LogErr \/ Crash \/ CrashMsg \/ Tick \/ Release
         \/ DialOk \/ DialFail \/ Respond \/ ConnOpen \/ ConnReq \/ ConnClose \/ End
 Spec == Init /\ [][Next]_vars
 
